@@ -12,7 +12,7 @@ MANIFEST = dict(
     text="TLC checks SignCache.tla (two goroutines, every interleaving of the cache steps: EmittedValid holds with the mutex, is violated without it - negative control) "
          "and the sequential engine model; concurrent runs of a REAL deputy node (2 block inserters, 2 confirm inserters, a miner thread, a reader thread, the engine's own "
          "background goroutines) are recorded under chainLock and validated by TLC as a sequential history of the C03/C02 monitor; every emitted confirm is checked to be the "
-         "node's own signature over a block it holds; 98 gated two-goroutine schedules are forced on the real SignBlock and 32 free-running goroutines sign 96000 hashes (every result checked); rounds with 5 deputies release the two encodings of ONE deputy's signature as two confirm packets at the same instant (the deputy must count once); gated rounds make a mining request queue on chainLock behind an "
+         "node's own signature over a block it holds; 98 gated two-goroutine schedules are forced on the real SignBlock and 32 free-running goroutines sign 96000 hashes (every result checked); rounds with 5 deputies release the two encodings of ONE deputy's signature as two confirm packets at the same instant (the deputy must count once); rounds in which a whole fork becomes stable at once while peers' confirms for its blocks arrive and the background goroutine writes the node's own (rendezvous through the SignBlock and store write gates); ConfirmStore.tla (SetConfirms as load/append/store, atomic vs. not - negative control) with rounds of concurrent SetConfirms/GetConfirms on the real store; TermLock.tla (Go's writer-preferring RWMutex: a nested read lock deadlocks against a waiting writer - negative control) with 8 goroutines querying the real deputy manager while term 1 is overwritten thousands of times (every answer from one saved version, watchdog for hangs); gated rounds make a mining request queue on chainLock behind an "
          "InsertBlock that moves the head; FileQueue.tla (store read path vs. background writer and done-notice handler: ReadLatest) is model-checked and every transition of its state graph is "
          "realised on the real store by holding the writer at barrier records; thorough adds Go race-detector builds of the same runs.",
     note="Linearizability is judged on the lock-ordered sequence of engine calls (hook under chainLock, sequence number under the same lock). 'No unsynchronised access' is decided "
@@ -42,6 +42,26 @@ def run(ctx):
     rr = ctx.drive("signblock-gate", ["-out", sg])
     info = json.loads(rr.stdout.strip().splitlines()[-1])
     ctx.validate("TraceSignCache", "TraceSignCache.cfg", [sg], what="%d gated SignBlock schedules" % info["schedules"])
+    # the store's confirm accessors, called by the chain thread and (outside chainLock) by the goroutine that signs stable blocks
+    ctx.tlc_exhaustive("ConfirmStore", "ConfirmStore_TRUE.cfg", timeout=300, workers=4)
+    negc = ctx.tlc("ConfirmStore", "ConfirmStore_FALSE.cfg", timeout=300, workers=4, expect_ok=False)
+    if negc["inv"] != "CompletedKept":
+        raise vlib.Broken("negative control: non-atomic SetConfirms should violate CompletedKept, got %s" % negc["inv"])
+    cs = ctx.path("traces", "confirmstore.ndjson")
+    rr = ctx.drive("confirm-store", ["-out", cs, "-rounds", 30 if ctx.quick() else 45], env={"VERIF_SCRATCH_DIR": ctx.path("work", "confirmstore", ".k")[:-3]})
+    info = json.loads(rr.stdout.strip().splitlines()[-1])
+    ctx.validate("TraceConfirmStore", "TraceConfirmStore.cfg", [cs], what="%d rounds of 4 concurrent SetConfirms + 2 GetConfirms on the real store" % info["lines"], count_behaviours=False)
+    ctx.extra["confirm_store_rounds"] = info["lines"]
+    # the deputy manager's lock: readers everywhere, the chain thread writes a term snapshot under chainLock
+    ctx.tlc_exhaustive("TermLock", "TermLock_FALSE.cfg", timeout=300, workers=4)
+    negt = ctx.tlc("TermLock", "TermLock_TRUE.cfg", timeout=300, workers=4, expect_ok=False)
+    if negt["inv"] != "NoHang":
+        raise vlib.Broken("negative control: a nested read lock should violate NoHang, got %s" % negt["inv"])
+    tl = ctx.path("traces", "termlock.ndjson")
+    rr = ctx.drive("term-lock", ["-out", tl, "-saves", 3000 if ctx.quick() else 20000], timeout=600)
+    info = json.loads(rr.stdout.strip().splitlines()[-1])
+    ctx.validate("TraceTermLock", "TraceTermLock.cfg", [tl], what="%d concurrent deputy-manager queries against 3000+ term overwrites" % info["calls"], count_behaviours=False)
+    ctx.extra["term_lock_calls"] = info["calls"]
     # concurrent real engine
     rounds = 12 if ctx.quick() else 120
     tr = ctx.path("traces", "engineconc.ndjson")
